@@ -13,10 +13,16 @@ module machinery, get_descriptive_data; poll threads not started).
              D3 cdt = frappy.datatypes.get_datatype(described datainfo): for every x in valid+bad catalogue built from the
                 described datainfo, the node's answer to `change` (accept / refuse, changed value) agrees with
                 cdt.validate(cdt.import_value(x), previous) - parameters without extra checks only
+                and, independently of any frappy datatype, with the SECoP meaning of the described datainfo:
+                node accepts => the payload is not outside the described value set (int / scaled / enum payloads and all
+                lengths exact, double tolerant by the described resolution); canonical payload inside => node accepts and
+                reports the value the payload denotes
              D4 every value the node emits for a parameter (initial updates on activate, read replies, changed replies,
                 updates to an activated connection; fake driver fed with valid readings and with readings beyond the
                 limits) is accepted by cdt.import_value and exports back to the same JSON
-             D5 readonly / constant flags predict the refusal of change; read of a constant is exactly the described one
+             D5 readonly / constant flags predict the refusal of change; read of a constant is exactly the described one -
+                also when the class has its own read_<p> returning something else (constant given in the class or in the
+                cfg), and every other message carrying the value of a described constant carries that constant
              D6 interface_classes / features == reference from the class hierarchy
              D7 no '$' placeholder left in any described unit
              D8 read / change / do / activate aimed at unexported modules, unexported accessibles, internal attribute
@@ -31,6 +37,10 @@ Oracle calibration
   * D3 skips parameters with dynamic limits or check hooks (G: known from the shape) and, on shipped nodes,
     every parameter whose class defines write_<p> or check_<p> (driver code of shipped modules is never entered; on
     shipped nodes read is only issued for parameters without read_<p>).
+  * D3 reference: 'outside' is only claimed where SECoP leaves no room (a wire integer beyond the described integer
+    min/max, a non-member, a length out of bounds, the wrong JSON kind); true/false and 5.0 offered for an integer are
+    judged by the integer they denote; +-Infinity for a double and null for an optional struct member are not judged;
+    'must accept' only for canonical payloads (the C04 reference conversion), nested structs may or may not be merged.
   * D5: readonly=false predicts 'not refused as ReadOnly' (a change may still be refused for its value).
   * D2 does not compare the order of names.  D6 reference: first of Drivable/Writable/Readable/Communicator in the MRO (by
     class identity), names of MRO classes that have frappy.modulebase.Feature as a direct base.
@@ -47,6 +57,7 @@ import re
 
 from vf import core
 from vf import genmods_node as G
+from vf.harness import c04      # ref_export: the reference conversion of canonical payloads
 from vf.catalog import types as T, values as V, refmodel as R
 
 PROPERTY = 'C06'
@@ -88,6 +99,127 @@ def spec_from_datainfo(di):
             return None
         opt = di.get('optional')
         return ('struct', tuple(ms), None if opt is None else tuple(opt))
+    return None
+
+
+def wire_of_native(spec, v):
+    """wire form of a value as a programmer / configuration file writes it (enum member by name allowed)"""
+    if spec[0] == 'enum' and isinstance(v, str):
+        return dict(spec[1])[v]
+    return G.export_of(spec, v)
+
+
+def _integer_of(x):
+    """the integer a JSON number denotes exactly, else None"""
+    if isinstance(x, bool):
+        return int(x)
+    if isinstance(x, int):
+        return x
+    if isinstance(x, float) and math.isfinite(x) and x == math.floor(x):
+        return int(x)
+    return None
+
+
+def outside_described(spec, x):
+    """reason (text) why the payload x is certainly NOT a value of the described datainfo, else None.
+    Written from the SECoP meaning of a datainfo, independent of frappy: integers (int, scaled, enum) and lengths are
+    exact; doubles are tolerant by the described resolution (frappy documents clamping within it)"""
+    k = spec[0]
+    if k == 'double':
+        if not R.is_num(x):
+            return f'{R.kindname(x)} for a double'
+        if isinstance(x, float) and math.isnan(x):
+            return 'NaN'
+        if isinstance(x, float) and math.isinf(x):
+            return None
+        try:
+            xf = float(x)
+        except OverflowError:
+            return 'integer beyond the float range'
+        lo, hi, absres, relres = T.double_limits(spec)
+        slack = max(abs(xf * relres), absres) * (1 + 1e-9) + abs(xf) * 1e-15
+        if not lo - slack <= xf <= hi + slack:
+            return f'beyond the described min/max by more than the resolution'
+        return None
+    if k in ('int', 'scaled'):
+        if not R.is_num(x):
+            return f'{R.kindname(x)} for an integer'
+        n = _integer_of(x)
+        if n is None:
+            return 'not an integral number'
+        if k == 'int':
+            lo, hi = T.int_limits(spec)
+        else:
+            scale, flo, fhi = T.scaled_limits(spec)
+            lo, hi = round(flo / scale), round(fhi / scale)
+        if not lo <= n <= hi:
+            return 'integer outside the described min/max'
+        return None
+    if k == 'bool':
+        if not R.is_num(x) or x not in (0, 1):
+            return f'{R.kindname(x)} {x!r} for a bool'
+        return None
+    if k == 'enum':
+        members = dict(spec[1])
+        if isinstance(x, str):
+            return None if x in members else 'name that is not a described member'
+        if R.is_num(x):
+            n = _integer_of(x)
+            return None if n is not None and n in members.values() else 'number that is not a described member'
+        return f'{R.kindname(x)} for an enum'
+    if k == 'string':
+        if not isinstance(x, str):
+            return f'{R.kindname(x)} for a string'
+        if len(x) < spec[1] or (spec[2] is not None and len(x) > spec[2]):
+            return 'length outside the described minchars/maxchars'
+        if not spec[3] and not x.isascii():
+            return 'non-ASCII text for a string without isUTF8'
+        return None
+    if k == 'blob':
+        if not isinstance(x, str):
+            return f'{R.kindname(x)} for a blob'
+        b = R.strict_b64(x)
+        if b is None:
+            return 'text that is not base64'
+        if not spec[1] <= len(b) <= spec[2]:
+            return 'length outside the described minbytes/maxbytes'
+        return None
+    if k == 'array':
+        if not isinstance(x, list):
+            return f'{R.kindname(x)} for an array'
+        if not spec[2] <= len(x) <= spec[3]:
+            return 'length outside the described minlen/maxlen'
+        for e in x:
+            why = outside_described(spec[1], e)
+            if why:
+                return 'element: ' + why
+        return None
+    if k == 'tuple':
+        if not isinstance(x, list):
+            return f'{R.kindname(x)} for a tuple'
+        if len(x) != len(spec[1]):
+            return 'wrong number of elements'
+        for m, e in zip(spec[1], x):
+            why = outside_described(m, e)
+            if why:
+                return 'element: ' + why
+        return None
+    if k == 'struct':
+        if not isinstance(x, dict):
+            return f'{R.kindname(x)} for a struct'
+        members = dict(spec[1])
+        optional = set(members) if spec[2] is None else set(spec[2])
+        if set(x) - set(members):
+            return 'member that is not described'
+        if set(members) - optional - {n for n, e in x.items() if e is not None}:
+            return 'mandatory member lacking'
+        for n, e in x.items():
+            if e is None:
+                continue     # null for an optional member: frappy's documented goodie, not judged
+            why = outside_described(members[n], e)
+            if why:
+                return f'member: ' + why
+        return None
     return None
 
 
@@ -151,12 +283,15 @@ def gen_configs(shape):
                                  'sta': {'default': {'a': 3, 'b': False}}}))
     if name in ('GD', 'GF'):
         cfgs.append(('dtprops', {'value': {'unit': 'K', 'min': -10.0, 'max': 500.0}}))
+    if name == 'GK':
+        # parameters with their own read_<p> (returning something else) made constant by the configuration
+        cfgs.append(('cfgconst', {'kr': {'constant': 2}, 'krq': {'constant': 0.75}, 'kre': {'constant': 'a'}}))
     return cfgs
 
 
 def node_specs(tier):
     specs = []
-    for shape in G.shapes(tier):
+    for shape in G.shapes(tier) + G.shapes_c06(tier):
         for label, cfg in gen_configs(shape):
             specs.append({'kind': 'gen', 'shape': shape, 'cfg': cfg, 'label': f"{shape['name']}/{label}"})
     # a node whose module under test is itself unexported (and a visible neighbour)
@@ -408,8 +543,23 @@ class Checker:
                     self.viol(f"C06:flags:readonly-{acc['readonly']}-but-reference-{info['readonly']}", f'structure/{m}/{wire}/flags',
                               f'{m}:{wire}')
                 pcfg = self.spec['cfg'].get(info['attr']) if m == MOD else None
-                if info['constant'] and 'constant' in acc and not (isinstance(pcfg, dict) and 'constant' in pcfg):
-                    want_const = G.export_of(info['rec']['spec'], V.dec(info['rec']['default']))
+                # unit: the declared / configured unit with the placeholder replaced by the configured main unit
+                cfg = self.spec['cfg'] if m == MOD else {}
+                vcfg = cfg.get('value') if isinstance(cfg.get('value'), dict) else {}
+                declared = pcfg['unit'] if isinstance(pcfg, dict) and 'unit' in pcfg else info['rec'].get('unit')
+                if declared is not None and isinstance(acc.get('datainfo'), dict):
+                    want_unit = declared.replace('$', vcfg.get('unit', ''))
+                    got_unit = acc['datainfo'].get('unit', '')
+                    self.part.outcomes['unit-reference:' + ('equal' if got_unit == want_unit else 'differs')] += 1
+                    if got_unit != want_unit and '$' not in got_unit:     # a placeholder left over is reported by D7
+                        self.viol('C06:unit:described-unit-differs-from-declared-unit-with-main-unit', f'structure/{m}/{wire}/unit',
+                                  f'{m}:{wire}: described unit {got_unit!r}, declared {declared!r} with main unit '
+                                  f'{vcfg.get("unit", "")!r} gives {want_unit!r}')
+                if info['constant'] and 'constant' in acc:
+                    if isinstance(pcfg, dict) and 'constant' in pcfg:
+                        want_const = wire_of_native(info['rec']['spec'], pcfg['constant'])
+                    else:
+                        want_const = wire_of_native(info['rec']['spec'], V.dec(info['rec']['default']))
                     if jn(acc['constant']) != jn(want_const):
                         self.viol('C06:flags:described-constant-differs-from-wire-form-of-the-constant', f'structure/{m}/{wire}/flags',
                                   f'{m}:{wire}: described constant {acc["constant"]!r}, the constant is {want_const!r} on the wire')
@@ -573,6 +723,28 @@ class Checker:
             if errclass == 'ReadOnly':
                 self.viol('C06:flags:readonly-false-but-change-refused-as-ReadOnly', sub, f'change {sub} {x!r}: {jsonable(reply)!r}')
                 break
+            # independent reference for the DESCRIBED datainfo (a differential against get_datatype alone is blind to a
+            # change that affects node and client datatype alike)
+            why_out = outside_described(spec, x)
+            canon = c04.ref_export(spec, x, cur if isinstance(cur, dict) else c04.NOVALUE)
+            part.outcomes['reference:' + ('outside' if why_out else 'canonical-inside' if canon is not c04.NOVALUE
+                                          else 'undecided')] += 1
+            if naccept and why_out:
+                self.viol(f'C06:change-vs-described:{spec[0]}:node-accepts-payload-outside-the-described-datainfo:' +
+                          norm(why_out), sub,
+                          f'change {sub} {json.dumps(x)} is accepted ({jsonable(reply)!r:.160}), but the described datainfo '
+                          f'{json.dumps(di)[:200]} excludes the payload: {why_out}')
+            elif not naccept and canon is not c04.NOVALUE:
+                self.viol(f'C06:change-vs-described:{spec[0]}:node-refuses-canonical-payload-inside-the-described-datainfo:'
+                          f'{errclass}', sub,
+                          f'change {sub} {json.dumps(x)} (current value {cur!r}) answers {jsonable(reply)!r:.200}, but the '
+                          f'payload is a value of the described datainfo {json.dumps(di)[:200]}')
+            elif naccept and canon is not c04.NOVALUE:
+                alt = c04.ref_export(spec, x, cur if isinstance(cur, dict) else c04.NOVALUE, deep=False)
+                if jn(reply[2][0]) != jn(canon) and jn(reply[2][0]) != jn(alt):
+                    self.viol(f'C06:change-vs-described:{spec[0]}:changed-value-is-not-the-payload', sub,
+                              f'change {sub} {json.dumps(x)}: node reports {jsonable(reply[2][0])!r}, the payload denotes '
+                              f'{canon!r}')
             if naccept != caccept:
                 self.viol(f'C06:change-vs-datainfo:{spec[0]}:node-{"accepts" if naccept else "refuses"}-datainfo-'
                           f'{"accepts" if caccept else "refuses"}:{R.kindname(x)}-payload', sub,
@@ -765,13 +937,20 @@ class Checker:
                     spec = spec_from_datainfo(acc['datainfo'])
                     if spec:
                         self.feed_readings(m, wire, info['attr'], spec)
-        # D4 on everything collected
+        # D4 on everything collected (+ D5: whatever is emitted for a described constant is that constant)
         for source, m, w, v in self.emitted:
             cdt = cdts.get((m, w))
             if cdt is None:
                 continue
             part.evaluations += 1
             self.importable(cdt, m, w, source, v)
+            acc = desc['modules'].get(m, {}).get('accessibles', {}).get(w, {})
+            if 'constant' in acc:
+                same = jn(v) == jn(acc['constant'])
+                part.outcomes['constant-emitted:' + ('equal' if same else 'differs')] += 1
+                if not same:
+                    self.viol(f'C06:constant:emitted-value-differs-from-described-constant:{source}', f'{m}:{w}',
+                              f'{m}:{w} is described as the constant {acc["constant"]!r}, but {source} carries {v!r}')
         self.undescribed(desc)
         self.describe_again()
 
